@@ -436,6 +436,9 @@ func RunJob(job *Job) *Result {
 		vsched.FreeRunning = true
 		for i := 0; i < job.Race && time.Now().Before(e.deadline); i++ {
 			e.runOnce(nil, false)
+			// the oracle phase (post operations, CleanUp) may have started maintenance goroutines of its own: they must be
+			// gone before the next repetition resets the determinism seams (otherwise the harness races with itself)
+			vsched.FreeWait()
 			res.Executions++
 		}
 		vsched.FreeRunning = false
